@@ -18,7 +18,7 @@ import threadcommon as tc
 
 LEVEL = "proof"
 NS = "Adept.Threads."
-REQUIRED = ["C14_thread_safe_build_shape", "C14_atomic_freed_once", "C14_freed_once_thread_safe_build", "C14_split_can_double_free",
+REQUIRED = ["C14_thread_safe_build_shape", "C14_thread_safe_under_every_config", "C14_atomic_freed_once", "C14_freed_once_thread_safe_build", "C14_split_can_double_free",
             "C14_soft_link_no_count", "C14_soft_link_machine", "C14_hypothesis_thread_safe", "C14_race_free_thread_safe",
             "C14_hypothesis_soft_default", "C14_race_free_soft_default"]
 
@@ -47,6 +47,17 @@ def run(ctx, replay):
     hi = 100000 if thorough else 30000
     tc.run_many(ctx, exe_ts, "thread-safe", "c14ts", cases(ctx.rng, n_ts, 500, hi))
     tc.run_many(ctx, exe_df, "default", "c14soft", cases(ctx.rng, n_soft, 500, hi))
+    # a configuration switch that cancels ADEPT_STORAGE_THREAD_SAFE (theorem C14_thread_safe_under_every_config broken): look for
+    # the failing run in a build with both macros
+    broken = tc.broken_config_combinations()
+    ctx.notes["config_combinations_cancelling_thread_safety"] = broken
+    for mac in broken[:3]:
+        try:
+            exe_x = tc.build(True, also=[mac])
+        except Exception as e:
+            ctx.notes.setdefault("config_combination_build_failed", []).append("%s: %s" % (mac, str(e)[:200]))
+            continue
+        tc.run_many(ctx, exe_x, "thread-safe+" + mac, "c14ts", cases(ctx.rng, 6, 2000, hi))
     nsched = 300 if thorough else 100
     tc.run_sched_batch(ctx, exe_ts, "thread-safe", "threadsafe", tc.sched_cases(ctx.rng, nsched, shared=True, stacks=False),
                        "reference count / storage count of the shared array on real threads")
